@@ -1,5 +1,6 @@
 import Sismic.Proofs.Edit
 import Sismic.Proofs.Rename
+import Sismic.Proofs.EquivPlan
 import Sismic.Props.C07
 import Sismic.Props.C02
 /-!
@@ -59,6 +60,55 @@ theorem renamed_behaves_as_substituted (env env' : Env σ ω) (c : Chart) (a b :
     (hrun : C07.Run env clocks rs₁ out) : ∀ rs₂, Rel rs₁ rs₂ → C07.Run env' clocks rs₂ out :=
   C07.declaration_order_free_run
     ⟨by rw [h1, h2]; exact Sismic.rename_is_substitution c a b ht h hne, hE, hi, hd, hf⟩ hb hw clocks rs₁ out hrun
+
+/-! ### the interpreter's decisions commute with an order-preserving renaming
+
+`ρ` is only assumed injective and order-preserving **on the names the statechart mentions**
+(`RenOK S ρ`, `NamesIn S c`): renaming any subset of the states order-preservingly is covered.
+Everything the interpreter decides from names — which transitions are selected (and which guards
+are evaluated, in which order), whether the selection is non-deterministic or conflicting and in
+which order it is processed, which states each transition exits and enters in which order, and what
+stabilisation does next (default children, history restoration by depth and name, orthogonal
+siblings in name order) — is, on the substituted statechart, the substituted decision. -/
+
+/-- **same selection**: same transitions (substituted), same guard evaluations in the same order -/
+theorem selection_commutes_with_renaming {S : Name → Prop} {ρ : Name → Name} (hρ : RenOK S ρ)
+    (c : Chart) (hc : NamesIn S c) (cfg : List Name) (hcfg : ∀ x ∈ cfg, S x)
+    (evName : Option String) (ok ok' : Trans → Bool → Bool)
+    (hok : ∀ t ∈ c.transitions, ∀ b, ok' (t.rename ρ) b = ok t b) :
+    selectTransitions (c.mapNames ρ) (cfg.map ρ) evName ok' =
+      (selectTransitions c cfg evName ok).rename ρ :=
+  selectTransitions_rename hρ c hc cfg hcfg evName ok ok' hok
+
+/-- **same verdict of `_sort_transitions`, same processing order** -/
+theorem ordering_commutes_with_renaming {S : Name → Prop} {ρ : Name → Name} (hρ : RenOK S ρ)
+    (c : Chart) (hc : NamesIn S c) (ts : List Trans) (hts : ∀ t ∈ ts, t ∈ c.transitions) :
+    sortTransitions (c.mapNames ρ) (ts.map (Trans.rename ρ)) =
+      (sortTransitions c ts).map (List.map (Trans.rename ρ)) :=
+  sortTransitions_rename hρ c hc ts hts
+
+/-- **same exit and entry lists, in the same order** -/
+theorem steps_commute_with_renaming {S : Name → Prop} {ρ : Name → Name} (hρ : RenOK S ρ)
+    (c : Chart) (hc : NamesIn S c) (cfg : List Name) (hcfg : ∀ x ∈ cfg, S x)
+    (ev : Option Event) (ts : List Trans) (hts : ∀ t ∈ ts, t ∈ c.transitions) :
+    createSteps (c.mapNames ρ) (cfg.map ρ) ev (ts.map (Trans.rename ρ)) =
+      (createSteps c cfg ev ts).map (Micro.rename ρ) :=
+  createSteps_rename hρ c hc cfg hcfg ev ts hts
+
+/-- **same stabilisation** (history memory substituted) -/
+theorem stabilisation_commutes_with_renaming {S : Name → Prop} {ρ : Name → Name} (hρ : RenOK S ρ)
+    (c : Chart) (hc : NamesIn S c) (memory : List (Name × List Name))
+    (hmk : ∀ p ∈ memory, S p.1) (hmv : ∀ p ∈ memory, ∀ x ∈ p.2, S x) (cfg : List Name) (hcfg : ∀ x ∈ cfg, S x) :
+    stabilizationStep (c.mapNames ρ) (renameMemory ρ memory) (cfg.map ρ) =
+      (stabilizationStep c memory cfg).map (Micro.rename ρ) :=
+  stabilizationStep_rename hρ c hc memory hmk hmv cfg hcfg
+
+/-- non-vacuity: a renaming of two of the names of a statechart that keeps their order, and is not
+    order-preserving on other strings (`"b" ↦ "zz"` jumps over `"c"`) -/
+example : RenOK (fun n => n = "a" ∨ n = "b") (fun n => if n = "a" then "m" else if n = "b" then "zz" else n) := by
+  constructor
+  · rintro a b (rfl | rfl) (rfl | rfl) <;> simp
+  · rintro a b (rfl | rfl) (rfl | rfl) <;> decide
 
 /-! non-vacuity: the example statechart of C02 (orthogonal state, nested target, history state) is tidy -/
 example : Tidy C02.exChart := tidy_of_wf _ (wfB_sound _ (by decide)) (by decide)
